@@ -177,3 +177,13 @@ theorem escapeImpl_eq_esc (t : Table) (hf : keysFresh t) (s : Str) : escapeImpl 
     exact ⟨p, hp, by simp [containsStr_single, hmem]⟩
 
 end HV
+
+namespace HV
+/-- replacing a character that does not occur changes nothing (used for attribute names without underscores) -/
+theorem replaceAll_single_noop (s : Str) (c : Nat) (v : Str) (h : containsStr s [c] = false) : replaceAll s [c] v = s := by
+  rw [replaceAll_single]
+  apply repl1_noop
+  intro hm
+  rw [containsStr_single] at h
+  simp_all
+end HV
